@@ -247,12 +247,12 @@ Lemma tool_spec_proof g ls docs : line_preserving g ->
   forallb bytes_okb (map (doc_spec g) docs) = true ->
   b64filter_tool g (unrecords 10 ls) = BOk (unrecords 10 (map (fun d => rfc4648 (doc_spec g d)) docs)).
 Proof.
-  intros Hg Hdec Hlf Hcr Hok. unfold b64filter_tool, b64filter.
+  intros Hg Hdec Hlf Hcr Hok. unfold b64filter_tool, b64filter, b64filter_stream.
   assert (records 10 b64f_feeder_strip_cr (unrecords 10 ls) = ls) as Er.
   { unfold records. rewrite (split_at_unrecords 10 ls Hlf). rewrite app_nil_r.
     destruct b64f_feeder_strip_cr; [|apply map_id].
     rewrite <- (map_id ls) at 2. apply map_ext_in. intros l Hl. apply strip_cr_id. intros a. apply Hcr. exact Hl. }
-  rewrite Er, (decode_all_spec ls docs Hdec). unfold b64filter_docs.
+  rewrite Er, (decode_all_spec ls docs Hdec). unfold b64filter_docs_stream.
   destruct (documents_preserved_proof g docs Hg) as (ci & ms & E1 & _ & _ & E2).
   rewrite E1, E2, (encode_all_spec _ Hok), map_map. reflexivity.
 Qed.
@@ -315,4 +315,47 @@ Proof.
   - rewrite forallb_forall. intros l Hl. apply plain_no_lf. apply Hp. exact Hl.
   - intros l a Hl. apply plain_no_cr_end. apply Hp. exact Hl.
   - rewrite Eid. exact Hok.
+Qed.
+
+(* ---------- children that do not preserve the line structure are detected ---------- *)
+Lemma rebuild_consumes : forall cnt has answers d rest,
+  rebuild cnt has answers = Some (d, rest) -> length answers = (cnt + length rest)%nat.
+Proof.
+  induction cnt as [|k IH]; intros has answers d rest H.
+  - simpl in H. inversion H; subst. reflexivity.
+  - simpl in H. destruct answers as [|a r]; [discriminate|].
+    destruct (rebuild k has r) as [[d' rest']|] eqn:E; [|discriminate].
+    inversion H; subst. simpl. rewrite (IH _ _ _ _ E). reflexivity.
+Qed.
+
+Lemma collect_ok_length : forall metas answers out,
+  Forall (fun m => (1 <= line_cnt m)%nat) metas ->
+  collect metas answers = COk out ->
+  length answers = fold_right (fun m n => (line_cnt m + n)%nat) 0%nat metas /\ length out = length metas.
+Proof.
+  induction metas as [|m r IH]; intros answers out Hge H.
+  - simpl in H. destruct answers; [|discriminate]. inversion H; subst. split; reflexivity.
+  - inversion Hge as [|? ? Hm Hr]; subst. simpl in H.
+    destruct (line_cnt m) as [|k] eqn:Ek; [lia|]. rewrite <- Ek in H.
+    destruct (rebuild (line_cnt m) (has_nl m) answers) as [[d rest]|] eqn:Er; [|discriminate].
+    destruct (collect r rest) as [ds| |] eqn:Ec; try discriminate.
+    inversion H; subst. destruct (IH rest ds Hr Ec) as [I1 I2].
+    rewrite (rebuild_consumes _ _ _ _ _ Er), I1. simpl. rewrite I2. split; reflexivity.
+Qed.
+
+(* whatever the child does: the tool succeeds only if the child wrote exactly as many lines as it
+   was given (one per line of every document) -- otherwise it fails instead of shifting documents *)
+Theorem line_count_guard_proof child cr_out docs out :
+  b64filter_docs_stream child cr_out docs = BOk out ->
+  exists child_in, feed_all docs = Some (child_in, map meta_of docs) /\
+    length (records 10 cr_out (child child_in)) = length (concat (map doc_lines docs)).
+Proof.
+  unfold b64filter_docs_stream. rewrite feed_all_spec.
+  set (ci := unrecords 10 (concat (map doc_lines docs))).
+  destruct (collect (map meta_of docs) (records 10 cr_out (child ci))) as [ods| |] eqn:Ec; try discriminate.
+  intros _. exists ci. split; [reflexivity|].
+  assert (Forall (fun m => (1 <= line_cnt m)%nat) (map meta_of docs)) as Hge.
+  { apply Forall_forall. intros m Hm. apply in_map_iff in Hm. destruct Hm as (d & <- & _). simpl. apply feed_doc_spec. }
+  destruct (collect_ok_length _ _ _ Hge Ec) as [H1 _]. rewrite H1.
+  clear. induction docs as [|d r IH]; [reflexivity|]. simpl. rewrite app_length, IH. reflexivity.
 Qed.
